@@ -133,6 +133,7 @@ def probe_points(rnd, shape):
 
 class C17(Monitor):
     prop = "C17"
+    quick_cases = 2000
     rule = ("random rectangle/circle parameters (integers, quarter grid, short decimals, free floats; degenerate, negative radius), "
             "second region derived from the first (contained, tangent, shifted by 0, +-2^-40, +-1e-9, +-1e-3, +-1); real containsPoint "
             "vs exact Fraction arithmetic on probe points (corners, extremes, next-after neighbours, boundary, exact Pythagorean "
@@ -141,8 +142,6 @@ class C17(Monitor):
     assumptions = ["disc decisions within 1e-12 relative of the border are not judged (float rounding); exact-boundary points on "
                    "dyadic Pythagorean discs must be inside", "containment is checked for soundness only (no completeness claim)"]
 
-    def budget(self, tier):
-        return dict(workers=4, cases=2500) if tier == "quick" else dict(workers=16, cases=0, secs=150, timeout=1200)
 
     def gen_case(self, rnd, tier, k):
         mode = rnd.choice([0, 0, 1, 2, 3])
